@@ -284,6 +284,12 @@ def analyze_flush(ctx):
         _rec(d, "scan-by-char-offset", src.endswith("into_iter(RangeInclusive::new(0, len(a2)))"), "the flush loop must scan the character offsets 0..=len(match) (the unit of the event keys); it scans %s" % src[:120], loc)
         if nx[0].endswith("=None"):
             tk = [g for g in gs if g.startswith("variant(Option::take(")]
+            if not tk:
+                # the pending text tested without take(): `if let Some(text) = buf`
+                for g in gs:
+                    mm = re.match(r"^variant\((?:ref\()?uninit\((\d+)\)\)?\)=(Some|None)$", g)
+                    if mm and strip_lt(b.locals[int(mm.group(1))]["ty"]).startswith("std::option::Option<std::string::String>"):
+                        tk.append(g)
             if tk and tk[-1].endswith("=Some"):
                 _rec(d, "tail-flushed", any(c[0] == "characters" for c in cs), "text still pending when the scan ends is not handed to the handler", loc)
             else:
